@@ -58,6 +58,9 @@ def explore(res, tag, subjects, phases=None, kind_to_key=None, derive_dep=None, 
                     f = compile_failures(active, idxs, derive_extern, use_cache=False)
                     if f:
                         break
+            if not f and ("signal:" in _stderr or not [l for l in _stderr.splitlines() if bname + "/main.rs" in l and "error" in l]):
+                raise MachineryError("batch %s does not build for an environmental reason (no rustc diagnostic on its source):\n%s" % (
+                    bname, _stderr[-2500:]))
             if not f:
                 errs = [l for l in _stderr.splitlines() if bname + "/main.rs" in l and "error" in l][:6]
                 res.violation({"kind": "compilation-outcome-not-deterministic", "batch_errors": errs[:3]},
